@@ -20,8 +20,12 @@ type Mutex struct {
 func (m *Mutex) Lock() {
 	s := sched
 	if s == nil || s.cur == nil {
+		// no simulation: the caller is the only goroutine using the library, so a lock that is
+		// already held can never be released — what a real process would do is hang forever
+		if !m.tryModel() {
+			panic(LibraryFatal{"all goroutines are asleep - deadlock! (Mutex.Lock on a mutex that was never unlocked)"})
+		}
 		m.inner.Lock()
-		m.setHeld(true)
 		return
 	}
 	preemptPoint()
@@ -132,8 +136,10 @@ func (m *RWMutex) dequeueW() { m.wwait-- }
 func (m *RWMutex) Lock() {
 	s := sched
 	if s == nil || s.cur == nil {
+		if !m.tryW() {
+			panic(LibraryFatal{"all goroutines are asleep - deadlock! (RWMutex.Lock on a lock that was never released)"})
+		}
 		m.inner.Lock()
-		m.tryW()
 		return
 	}
 	preemptPoint()
@@ -197,8 +203,10 @@ func (m *RWMutex) wake(s *Sched) { s.wakeAll(&m.waiters) }
 func (m *RWMutex) RLock() {
 	s := sched
 	if s == nil || s.cur == nil {
+		if !m.tryR(nil) {
+			panic(LibraryFatal{"all goroutines are asleep - deadlock! (RWMutex.RLock while a write lock was never released)"})
+		}
 		m.inner.RLock()
-		m.tryR(nil)
 		return
 	}
 	preemptPoint()
